@@ -1,7 +1,7 @@
 open Model
 open Conv
 open RemoteQueue
-(* remotequeue <counts, comma separated or -> <none|thread|pre> | tid tid ...
+(* remotequeue <counts, comma separated or -> <number of stoppers> <pre: 0|1> | tid tid ...
    events are rendered exactly as tools/units/io.py (class EpollRemoteQueue) projects the
    implementation trace *)
 let str_item = function IWork (p, j) -> Printf.sprintf "p%d.%d" (int_of_nat p) (int_of_nat j) | IStop -> "STOP"
@@ -19,15 +19,16 @@ let render = function
   | ERead v -> Printf.sprintf "!read evfd v=%d" (int_of_nat v)
   | EExec it -> "!exec " ^ str_item it
   | EReturn -> "!run returned"
+  | ESrcReg ok -> if ok then "src REG" else "src REG-INLINE"
+  | ESrcSet won -> if won then "src SET" else "src SET-LATE"
 let b01 b = if b then "1" else "0"
 let () =
   Registry.register "remotequeue" (fun args ->
     match args with
-    | counts :: sm :: "|" :: tids ->
+    | counts :: nstop :: pre :: "|" :: tids ->
       let cs = if counts = "-" then [] else List.map (fun w -> nat_of_int (int_of_string w)) (String.split_on_char ',' counts) in
-      let m = (match sm with "thread" -> SThread | "pre" -> SPre | _ -> SNone) in
       let step t s = RemoteQueue.step (nat_of_int t) s in
-      let (st, tr) = Lockstep.run step render (RemoteQueue.init cs m) (ints_of_words tids) in
+      let (st, tr) = Lockstep.run step render (RemoteQueue.init cs (nat_of_int (int_of_string nstop)) (pre = "1")) (ints_of_words tids) in
       Printf.sprintf "%s # returned=%s blocked=%s efd=%d tokens=%d enq=%s executed=%s pending=%s queued=%d"
         tr (b01 (RemoteQueue.returned st)) (b01 (RemoteQueue.blocked st)) (int_of_nat st.efd) (int_of_nat st.tokens)
         (str_list str_item st.enq) (str_list str_item (RemoteQueue.executed st)) (str_list str_item st.pending)
